@@ -110,7 +110,8 @@ theorem post_evalStringInfix {st : St} (hI : Inv st) (op : String) (l : List UIn
     Post (evalStringInfix op l r) st (OkSame st) := by
   unfold evalStringInfix
   split
-  · exact Post.pure hI ⟨rfl, by simp [okObj]⟩
+  · refine mustBeOk_bind hI _ ?_    -- the memory budget check of string + string
+    exact Post.pure hI ⟨rfl, by simp [okObj]⟩
   · split
     · exact Post.pure hI ⟨rfl, okObj_err⟩
     · refine mustBeOk_bind hI _ ?_
